@@ -626,8 +626,10 @@ class DagGen:
     """Seeded generator of DAG histories over 1-4 branches.  Pure: uses only rng and the
     model.  Each generated spec carries "tags" naming the situations it creates."""
 
-    def __init__(self, rng, mh=None, ts0=1_500_000_000, kinds=("file", "file", "file", "directory", "symlink"), exec_bits=True, ghosts=0.0, nick=None, prefix=""):
+    def __init__(self, rng, mh=None, ts0=1_500_000_000, kinds=("file", "file", "file", "directory", "symlink"), exec_bits=True, ghosts=0.0, nick=None, prefix="", octopus=0.0):
         self.rng = rng
+        self.octopus = octopus  # probability per step of an octopus merge (3-4 parents)
+        self.ntmp = 0
         self.mh = mh or MDag()
         self.ts0 = ts0
         self.kinds = kinds
@@ -904,6 +906,79 @@ class DagGen:
             self.edit(tree, f"{branch}-cp", tags, n=1)
         return self._emit(branch, [p0], tree, tags)
 
+    def op_octopus(self, branch, others, route=None, extra_tags=()):
+        """A merge with len(others)+1 parents; the tree is merged parent by parent with
+        per-file decisions.  route "builder" = committed through the commit builder with
+        the explicit parent list (a working tree drops right-hand parents that are not
+        heads among the parents)."""
+        mh = self.mh
+        p0 = mh.tips[branch]
+        tags = {"merge", "octopus"} | set(extra_tags)
+        rid_preview = f"{self.prefix}{branch}-{mh.nrev.get(branch, 0) + 1}"
+        tree = {f: list(e) for f, e in mh.tree(p0).items()}
+        for o in others:
+            tree = self.merged_tree(tree, mh.tree(o), rid_preview, tags)
+        parents = [p0] + list(others)
+        redundant = any(p in mh.ancestry(q) for i, p in enumerate(parents) if i > 0 for q in parents if q != p)
+        if redundant:
+            tags.add("octopus_redundant_parent")
+            route = "builder"
+        spec = self._emit(branch, parents, tree, tags)
+        if route == "builder":
+            spec["route"] = "builder"
+        return spec
+
+    def op_octopus_auto(self, b):
+        """One of: two fresh sibling branches forked from another branch's tip and both
+        merged (two right-hand parents carry the SAME versions of the files they did not
+        touch); several unrelated tips; a right-hand parent that is an ancestor of
+        another parent.  Returns None when the history offers no candidates."""
+        rng = self.rng
+        mh = self.mh
+        tip = mh.tips[b]
+        anc = mh.ancestry(tip)
+        foreign = [o for o in sorted(mh.tips) if o != b and mh.tips[o] not in anc]
+        mode = rng.choice(["siblings", "siblings", "tips", "redundant"])
+        if not foreign:
+            return None
+        if mode == "siblings":
+            u = mh.tips[rng.choice(foreign)]
+            if rng.random() < 0.3:
+                cand = [x for x in mh.order if x not in anc]
+                u = rng.choice(cand)
+            names = []
+            for _ in range(rng.choice([2, 2, 3])):
+                self.ntmp += 1
+                name = f"x{self.ntmp}"
+                self.op_edit(name, base=u)
+                if rng.random() < 0.3:
+                    self.op_edit(name)
+                names.append(name)
+            others = [mh.tips[n] for n in names]
+            for n in names:
+                del mh.tips[n]
+            if rng.random() < 0.3:
+                rng.shuffle(others)
+            return self.op_octopus(b, others, route=rng.choice([None, None, "builder"]), extra_tags=("octopus_siblings",))
+        if mode == "tips":
+            others = []
+            for o in foreign:
+                t = mh.tips[o]
+                if all(t not in mh.ancestry(x) and x not in mh.ancestry(t) for x in others):
+                    others.append(t)
+            if len(others) < 2:
+                return None
+            return self.op_octopus(b, others[:3], route=rng.choice([None, None, "builder"]))
+        big = mh.tips[rng.choice(foreign)]
+        small = [x for x in mh.order if x in mh.ancestry(big)] if rng.random() < 0.7 else [x for x in mh.order if x in anc]
+        small = [x for x in small if x not in (tip, big)]  # never the same parent twice
+        if not small:
+            return None
+        others = [rng.choice(small), big]
+        if rng.random() < 0.5:
+            others.reverse()
+        return self.op_octopus(b, others)
+
     def run(self, nrev, nbranch=None, merge_p=0.3):
         """Generate about `nrev` revisions."""
         rng = self.rng
@@ -924,6 +999,8 @@ class DagGen:
                 continue
             b = rng.choice(live)
             others = [o for o in live if o != b and mh.tips[o] not in mh.ancestry(mh.tips[b])]
+            if self.octopus and rng.random() < self.octopus and self.op_octopus_auto(b) is not None:
+                continue
             r = rng.random()
             if r < merge_p and others:
                 o = rng.choice(others)
@@ -1109,10 +1186,15 @@ class DagBuilder:
         else:
             wt = self._wt(name)
         self._ensure_revs(wt.branch.repository, parents)
-        wt.set_parent_ids([p.encode() for p in parents])
-        sync_wt(wt, spec["tree"])
         props = dict(spec.get("props") or {})
         props.setdefault("branch-nick", name)
+        if spec.get("route") == "builder":
+            self._commit_direct(wt, spec, props)
+            self.home[spec["id"]] = name
+            self.done.append(spec["id"])
+            return
+        wt.set_parent_ids([p.encode() for p in parents])
+        sync_wt(wt, spec["tree"])
         wt.commit(
             message=spec["msg"],
             rev_id=spec["id"].encode(),
@@ -1123,6 +1205,33 @@ class DagBuilder:
         )
         self.home[spec["id"]] = name
         self.done.append(spec["id"])
+
+
+def _commit_direct(self, wt, spec, props):
+    """Commit through Branch.get_commit_builder + record_iter_changes with the explicit
+    parent list (what breezy.commit.Commit does, minus the working tree's filtering of
+    right-hand parents that are not heads)."""
+    parents = [p.encode() for p in spec["parents"]]
+    rid = spec["id"].encode()
+    wt.set_parent_ids(parents[:1])
+    sync_wt(wt, spec["tree"])
+    branch = wt.branch
+    with wt.lock_write():
+        basis = wt.basis_tree()
+        with basis.lock_read():
+            builder = branch.get_commit_builder(parents, None, spec["ts"], spec.get("tz", 0), spec.get("committer", COMMITTER), props, rid)
+            try:
+                for _ in builder.record_iter_changes(wt, parents[0], wt.iter_changes(basis)):
+                    pass
+                builder.finish_inventory()
+                builder.commit(spec["msg"])
+            except BaseException:  # noqa: B036
+                builder.abort()
+                raise
+        branch.generate_revision_history(rid)
+
+
+DagBuilder._commit_direct = _commit_direct
 
 
 def real_tree(repo, rid):
